@@ -248,6 +248,7 @@ C13_T = [
 ]
 C17_Q = [
     H("c17_detect", "encoding::detect_encoding on every input of <=4 bytes vs the documented table", ["utf-8 bom", "utf-16le signature"], crate="enc"),
+    H("c17_refine_table", "EncodingRef::can_be_refined / encoding() for each of the 4 precedence states x 4 encodings vs the documented automaton (Explicit and XmlDetected are final)", ["explicit is final", "bom can be refined"], crate="enc"),
 ]
 C17_T = [
 ]
